@@ -405,7 +405,7 @@ module Mg = struct
     issued := [];
     let dead = ref false in
     let opn = ref 0 in
-    let is_static p = p < 8 in
+    let is_static p = p < 8 || p >= 12 in
     Stdlib.List.iter (fun l ->
       let toks = split_ws l in
       match toks with
@@ -684,7 +684,7 @@ module MgS = struct
          | ("assign" | "assignid"), [tid; h; p; v] ->
              let av = if v = "-" || not (hasval p) then None else Some (Mg.z_of_int (int_of_string v)) in
              apply (XoAssign (ni tid, nk h, cid p, av))
-         | ("remove" | "removeid"), [tid; h; p] -> apply (XoRemove (ni tid, nk h, cid p, opname = "remove" && int_of_string p < 8))
+         | ("remove" | "removeid"), [tid; h; p] -> apply (XoRemove (ni tid, nk h, cid p, opname = "remove" && (int_of_string p < 8 || int_of_string p >= 12)))
          | "assignshared", [h; sp; v] -> apply (XoAssignShared (nk h, nat_of_int (Mg.reg_shared (int_of_string sp)), Mg.z_of_int (int_of_string v)))
          | "removeshared", [h; sp] -> apply (XoRemoveShared (nk h, nat_of_int (Mg.reg_shared (int_of_string sp))))
          | "clone", [h] -> apply (XoClone (nk h))
